@@ -109,6 +109,34 @@ theorem C12_wf_in_range (cc : CC) (hs : cc.Sane) (e : Expr) (hw : wfExpr cc e = 
     ∃ s, parse cc s = some e :=
   ⟨printExpr e, C12_roundtrip cc hs e hw⟩
 
+/-- **Printing is unambiguous.** Two RREL expressions with the same printed form are the same
+expression: `__repr__` loses no structure, flag, fixed name, dot count, bracket or star. -/
+theorem C12_print_injective (cc : CC) (hs : cc.Sane) (e₁ e₂ : Expr)
+    (h₁ : wfExpr cc e₁ = true) (h₂ : wfExpr cc e₂ = true) (h : printExpr e₁ = printExpr e₂) : e₁ = e₂ := by
+  have a := C12_roundtrip cc hs e₁ h₁
+  rw [h, C12_roundtrip cc hs e₂ h₂] at a
+  exact (Option.some.inj a).symm
+
+/-- **The printed form is a normal form of the text.** For every accepted text `s` (no fixed
+name ending with a backslash, C12-KF1): the printed form of the parse is accepted, it parses
+to the same expression, and printing again gives the same string — `print ∘ parse` is
+idempotent on texts, whatever whitespace or quoting style `s` used. -/
+theorem C12_print_normal_form_partial (cc : CC) (hs : cc.Sane) (s : Str) (e : Expr) (hp : parse cc s = some e)
+    (hb : ∀ f ∈ fixedNames e, endsWithBackslash f = false) :
+    (parse cc (printExpr e)).map printExpr = some (printExpr e) := by
+  rw [C12_parsed_partial cc hs s e hp hb]; rfl
+
+/-- **Equivalent texts.** Two accepted texts have the same printed form exactly when they parse
+to the same expression (under the C12-KF1 proviso for both): the printed form identifies the
+expression among everything the parser can return. -/
+theorem C12_same_print_iff_partial (cc : CC) (hs : cc.Sane) (s₁ s₂ : Str) (e₁ e₂ : Expr)
+    (hp₁ : parse cc s₁ = some e₁) (hp₂ : parse cc s₂ = some e₂)
+    (hb₁ : ∀ f ∈ fixedNames e₁, endsWithBackslash f = false)
+    (hb₂ : ∀ f ∈ fixedNames e₂, endsWithBackslash f = false) :
+    printExpr e₁ = printExpr e₂ ↔ e₁ = e₂ :=
+  ⟨C12_print_injective cc hs e₁ e₂ (wfExpr_of_lexable (parse_sound hp₁) hb₁)
+      (wfExpr_of_lexable (parse_sound hp₂) hb₂), fun h => by rw [h]⟩
+
 /-- the ASCII classification used by the driver satisfies the hypothesis -/
 theorem asciiCC_sane : asciiCC.Sane := ⟨by decide⟩
 
@@ -163,6 +191,10 @@ example : parse asciiCC (printExpr sample) = some sample := C12_roundtrip _ asci
 /-- the parser accepts layout the printer never writes; printing normalises it -/
 example : (parse asciiCC " +mp: .. a . ( ~ b , 'x y' ~c )* . parent ( T ) , (d) ".toList).map printExpr =
     some "+mp:..a.(~b,'x y'~c)*.parent(T),(d)".toList := by decide +kernel
+/-- two spellings of one expression (quoting style, layout) have one printed normal form
+(`C12_print_normal_form_partial`, `C12_same_print_iff_partial`) -/
+example : (parse asciiCC "a.\"x y\"~b".toList).map printExpr = some "a.'x y'~b".toList := by decide +kernel
+example : (parse asciiCC " a . 'x y' ~ b ".toList).map printExpr = some "a.'x y'~b".toList := by decide +kernel
 /-- the core of the sample: brackets → two guarded nodes, `*` → `star` over the sequence node,
 identities 0 … 10 in preorder; the fixed name becomes a `fixed` step -/
 example : toCore sample = some
